@@ -144,6 +144,66 @@ Example client_hello_extensions_example :
   val (client_hello_extensions [0; 23; 0; 0; 0; 14; 0; 7; 0; 4; 0; 2; 0; 1; 0]) = Ok (true, [2; 1]).
 Proof. vm_compute. reflexivity. Qed.
 
+(* ---------------------------------------------------------------- fragment reassembly *)
+Lemma reasm_step_spec : forall st f,
+  wp (reasm_step st f)
+     (fun r t a => exists o st', r = Ok (o, st') /\ 0 <= a /\ 0 <= t /\
+                   a + len (r_buf st') <= 2 * len (f_body f) + 12 + len (r_buf st) /\
+                   t <= 2 * len (f_body f) + len (r_buf st) + 3).
+Proof.
+  intros st f. unfold reasm_step. consts.
+  set (buf0 := if negb (r_seq st =? f_seq f) || (f_off f =? 0) then [] else r_buf st).
+  assert (Hb : 0 <= len buf0 <= len (r_buf st)).
+  { unfold buf0. destruct (negb _ || _); lens. }
+  clearbody buf0.
+  steps.
+  all: eexists _, _; (split; [reflexivity|]); cbn [r_buf].
+  all: repeat split; lens.
+Qed.
+
+(* cumulative: over ANY history of fragments the bytes placed in reassembly buffers (and in re-encoded
+   complete messages) stay within twice the fragment bytes received plus 12 per fragment -- the
+   peer-declared total_length never enters the bound *)
+Theorem reasm_fold_alloc : forall fs st,
+  wp (reasm_fold st fs)
+     (fun r t a => exists st', r = Ok st' /\ 0 <= a /\
+                   a + len (r_buf st') <= 2 * frags_bytes fs + 12 * len fs + len (r_buf st)).
+Proof.
+  induction fs as [|f rest IH]; intros st; cbn [reasm_fold frags_bytes].
+  - apply wp_ret. exists st. lens.
+  - apply wp_bind. eapply wp_weaken; [apply reasm_step_spec|]. cbv beta.
+    intros r t a (o & st' & -> & Ha & Ht & Hal & Htl). cbv beta iota.
+    eapply wp_weaken; [apply IH|]. cbv beta.
+    intros r' t' a' (st'' & -> & Ha' & Hal'). exists st''. split; [reflexivity|]. lens.
+Qed.
+
+Corollary reasm_fold_total : forall fs st, val (reasm_fold st fs) <> Panic /\ val (reasm_fold st fs) <> OutOfFuel.
+Proof.
+  intros fs st. pose proof (reasm_fold_alloc fs st) as H. unfold wp in H.
+  destruct H as (st' & -> & _). split; discriminate.
+Qed.
+
+Corollary reasm_fold_alloc_bound : forall fs st,
+  allocd (reasm_fold st fs) <= 2 * frags_bytes fs + 12 * len fs + len (r_buf st).
+Proof.
+  intros fs st. pose proof (reasm_fold_alloc fs st) as H. unfold wp in H.
+  destruct H as (st' & _ & Ha & Hb). pose proof (len_nonneg (r_buf st')). lia.
+Qed.
+
+(* had the buffer been sized from the declared length (`reserve(total_length)` on the first fragment), one
+   1-byte fragment would already break the bound: *)
+Definition reasm_step_reserving (st : reasm) (f : frag) : M (option bytes * reasm) :=
+  (if negb (f_total f =? len (f_body f)) && (negb (r_seq st =? f_seq f) || (f_off f =? 0)) then alloc (f_total f) else ret tt) ;;;
+  reasm_step st f.
+Lemma reasm_reserving_refuted :
+  exists f, len (f_body f) = 1 /\ allocd (reasm_step_reserving reasm_init f) > 16000000.
+Proof. exists (mkFrag 16777215 0 0 [1]). split; [reflexivity | vm_compute; reflexivity]. Qed.
+
+Example reasm_example :
+  val (reasm_fold reasm_init [mkFrag 3 0 0 [1]; mkFrag 3 0 1 [2; 3]]) = Ok (mkReasm [] 0)
+  /\ val (reasm_run reasm_init [mkFrag 3 0 0 [1]; mkFrag 3 0 1 [2; 3]]) = Ok (Some [1; 2; 3], mkReasm [] 0, []).
+Proof. vm_compute. split; reflexivity. Qed.
+
 (* F26: the 16-bit receive counter after 65536 accepted messages *)
 Lemma recv_seq_unchecked_panics : val (recv_seq_bump_unchecked 65535) = Panic.
 Proof. vm_compute. reflexivity. Qed.
